@@ -24,6 +24,7 @@ def run(rep, idx, tier):
     rep.require("C02.7", 4)
     rep.require("C02.8", 3)
     rep.require("C02.9", 3)
+    rep.require("C02.10", 8)
     thorough = tier == "thorough"
     mm = idx.find_class("MemoryMap")
     add_res = idx.find_func("MemoryMap.add_resource")
@@ -51,6 +52,8 @@ def run(rep, idx, tier):
     # ---- C02.9 the rounding helper (modular reduction, not a numeric run) ---------------------------------------
     from . import glue
     glue.align_up(rep, idx, "C02.9")
+    # ---- C02.10 queries report the current contents: pure, or their memo is reset by every mutator ---------------
+    query_coherence(rep, idx)
 
 
 def handover(rep, idx):
@@ -264,6 +267,9 @@ BISECT_RULES = {
     ("_starts", "U"): ("bisect_left", "ranges whose (inclusive) start lies before an exclusive stop: start == probe does not overlap"),
     ("_starts", "UI"): ("bisect_right", "ranges whose (inclusive) start is at or before an inclusive last address: start == probe overlaps"),
     ("_stops", "UI"): ("bisect_right", "first range whose (exclusive) stop lies beyond an inclusive address"),
+    ("_starts", "LAST"): (None, "the last element of a stepped range (a dense window: range(start, stop, ratio)) is stop - step, not the "
+                                "last address stop - 1: ranges starting between the two are not seen as overlapping"),
+    ("_stops", "LAST"): (None, "the last element of a stepped range is stop - step, not its last address stop - 1"),
 }
 
 
@@ -276,6 +282,10 @@ def probe_kind(e):
         return "U"
     if e[0] == 'name' and e[1] in ('point', 'address', 'addr'):
         return "L"
+    if e[0] == 'sub' and e[1][0] == 'name' and e[2] == ('const', 0):
+        return "L"                                  # first element of a (non-empty) range == .start
+    if e[0] == 'sub' and e[1][0] == 'name' and e[2] in (('const', -1), ('un', '-', ('const', 1))):
+        return "LAST"                               # last *element*: stop - step, not stop - 1, for a stepped range
     return None
 
 
@@ -296,6 +306,9 @@ def intervals(rep, idx):
                 rule = BISECT_RULES.get((lname, pk))
                 if rule is None:
                     rep.unk("C02.6", fi.site, what, f"no endpoint-kind rule for list {lname} probed with kind {pk}")
+                    continue
+                if rule[0] is None:
+                    rep.bad("C02.6", fi.site, what, rule[1], line=n.lineno)
                     continue
                 rep.check(n.func.attr == rule[0], "C02.6", fi.site, what, f"needs {rule[0]}: {rule[1]}")
     # insertion: index lists stay aligned (same index for _starts and _keys, matching probes)
@@ -382,3 +395,47 @@ def ordering(rep, idx):
     ok = any(wp.norm(L.iter) == wp.parse("self.windows()") for L in wp.t.loops.values())
     rep.check(ok, "C02.7", wp.fi.site, "window_patterns() follows windows()", f"iterates {[ir.show(wp.norm(L.iter)) for L in wp.t.loops.values()]}",
               nontrivial=False)
+
+
+MAP_CLASSES = ("MemoryMap", "_RangeMap", "_Namespace")
+TABLES = ("_ranges", "_resources", "_windows", "_namespace", "_starts", "_stops", "_keys", "_values", "_assignments")
+
+
+def query_coherence(rep, idx, rule="C02.10", only=None):
+    """A query (resources(), windows(), window_patterns(), find_resource(), ...) must report what the map holds *now*.
+    Structural condition: a query writes no field of the map; or, if it keeps a memo, every method that changes the
+    tables writes that memo as well (resets it).  A memo no mutator touches goes stale on the next add."""
+    from ..core.effects import get_effects
+    ef = get_effects(idx)
+    for cname in MAP_CLASSES:
+        cls = idx.find_class(cname)
+        if cls is None:
+            rep.unk(rule, "-", f"class {cname}", "not found")
+            continue
+        summ = {}
+        for name, fs in cls.methods.items():
+            for f in fs:
+                summ.setdefault(name, []).append((f, {loc[2][0] for loc in ef.summary(f).writes if loc[0] == 'self' and loc[2]}))
+        other_state = {n for n, lst in summ.items() for f, w in lst if n != "__init__" and w and w <= {"_frozen", "_next_addr"}}
+        mutators = {n for n, lst in summ.items() for f, w in lst if n != "__init__" and w & set(TABLES)}
+        for name, lst in sorted(summ.items()):
+            if name == "__init__" or name in mutators or name in other_state:
+                continue
+            if only is not None and name not in only:
+                continue
+            for f, w in lst:
+                if not w:
+                    rep.ok(rule, f.site, f"{cname}.{name}() writes no field of the map", "pure query", nontrivial=True)
+                    continue
+                for attr in sorted(w):
+                    if attr == "_frozen":
+                        rep.ok(rule, f.site, f"{cname}.{name}() only sets the frozen flag", "monotone flag (C02.2)", nontrivial=False)
+                        continue
+                    missing = sorted(m for m in mutators if not any(attr in mw for _, mw in summ[m]))
+                    if missing:
+                        rep.bad(rule, f.site, f"{cname}.{name}() keeps state in self.{attr}",
+                                f"{', '.join(m + '()' for m in missing)} change(s) the map without touching self.{attr}: what {name}() "
+                                "reports after a later add is what it computed before it")
+                    else:
+                        rep.unk(rule, f.site, f"{cname}.{name}() keeps state in self.{attr}",
+                                "every mutator writes it too; whether that write invalidates the memo is not decided")
